@@ -20,7 +20,7 @@ for pid, c in sorted(M.CHECKS.items()):
 na = [{"property_id": pid, "reason": r} for pid, r in sorted(M.NOT_APPLICABLE.items())]
 man = {
     "version": 1,
-    "setup_cmd": "cd lean && lake build Mathy driver",
+    "setup_cmd": "cd lean && lake build Mathy driver srcdriver",
     "hooks": {
         "guard": "MATHY_CORE_VERIF",
         "enable": "no source hooks: every observation is made in-process by harness/*.py importing /repo's working tree (the variable is set by the harness but nothing in mathy_core reads it)",
